@@ -452,7 +452,7 @@ func labelsSig(ls []string) string {
 
 func (o *c04Oracle) Inputs() int                            { return o.mutants }
 func (o *c04Oracle) Finish(e *core.Engine) []core.Violation { return nil }
-func (o *c04Oracle) NonTrivial(e *core.Engine) bool          { return o.mutants >= 5 && o.blocks >= 1 }
+func (o *c04Oracle) NonTrivial(e *core.Engine) bool         { return o.mutants >= 5 && o.blocks >= 1 }
 
 // CheckTx-path oracle: evaluated on "checks" steps flagged as mutants.
 type c04Full struct {
